@@ -60,6 +60,8 @@ OTHER_SITES = {
     "optional": lambda s, t: "fn main() {\n  let x: %s = %s;\n  let o: %s? = x;\n}\n" % (s, lit(s), t),
     "coalesce-default": lambda s, t: "fn main() {\n  let x: %s = %s;\n  let o: %s? = none;\n  let r: %s = o ?? x;\n}\n" % (s, lit(s), t, t),
     "map-literal-value": lambda s, t: "fn main() {\n  let x: %s = %s;\n  let m := { 1 => x } as map[i32]%s;\n}\n" % (s, lit(s), t),
+    "map-literal-ident-key-value": lambda s, t: "fn main() {\n  let k: i32 = 1;\n  let x: %s = %s;\n  let m := { k => x } as map[i32]%s;\n}\n" % (s, lit(s), t),
+    "map-literal-ident-key": lambda s, t: "fn main() {\n  let x: %s = %s;\n  let m := { x => 1 } as map[%s]i32;\n}\n" % (s, lit(s), t),
     "method-arg": lambda s, t: "type R struct { .F: i32 };\nfn (r: R) m(p: %s) {\n}\nfn main() {\n  let x: %s = %s;\n  let r: R = { .F = 1 } as R;\n  r.m(x);\n}\n" % (t, s, lit(s)),
 }
 
